@@ -447,7 +447,7 @@ class Run:
         self.ctx_count += 1
         cid = f'x{self.ctx_count}'
         parent = fr.ctx if fr is not None else None
-        if parent is None or (mode == 'thread' and not self.thread_inherits) or mode == 'taskfresh':
+        if parent is None or (mode == 'thread' and not self.thread_inherits) or mode in ('taskfresh', 'executor'):
             base = dict(DEFAULT)
         else:
             base = dict(self.stacks[parent][-1])
@@ -1279,15 +1279,20 @@ class Run:
         ctx = contextvars.copy_context()
         prev_frame = getattr(tls, 'frame', None)
 
-        def inside():
+        def inside(which=body):
             tls.frame = sub
             try:
-                drive(self.sync_ctx_body(sub, body, depth))
+                drive(self.sync_ctx_body(sub, which, depth))
             finally:
                 tls.frame = prev_frame
 
         try:
             ctx.run(inside)
+            if len(stmt) > 2 and stmt[2] is not None:
+                # the same Context object used for a second job (a re-used copy_context(), a pool worker):
+                # it starts from where the first job left it, i.e. from its snapshot again
+                self.probe('context_object_reused')
+                ctx.run(inside, stmt[2])
         except Abort:
             raise
         except BaseException:
@@ -1424,10 +1429,13 @@ class Run:
 
     async def do_tothread(self, fr: Frame, stmt: list, depth: int) -> None:
         body = stmt[1]
-        cid = self.new_ctx(fr, 'tothread', fr.actor.aid)
+        alt = len(stmt) > 2 and bool(stmt[2])
+        # alt: loop.run_in_executor(None, job) -- unlike to_thread it does not copy the context: the worker
+        # thread has a context of its own and must see the defaults
+        cid = self.new_ctx(fr, 'executor' if alt else 'tothread', fr.actor.aid)
         sub = Frame(fr.actor, cid, True)
         if len(self.stacks[fr.ctx]) > 1:
-            self.probe('to_thread_snapshot_inside_block')
+            self.probe('run_in_executor_inside_block' if alt else 'to_thread_snapshot_inside_block')
 
         box: dict = {}
 
@@ -1446,7 +1454,10 @@ class Run:
 
         tls.frame = None
         try:
-            await asyncio.to_thread(job)
+            if alt:
+                await self.loop.run_in_executor(None, job)
+            else:
+                await asyncio.to_thread(job)
             if 'exc' in box:
                 raise box['exc']
         finally:
